@@ -52,7 +52,7 @@ class SpikeGenerator():
                     spike_times[sym].extend(SpikeGenerator._generate_regular_spikes(T=sim_time, rate=float(stimulus["rate"])))
                 elif stimulus["type"] == "list":
                     str_io = io.StringIO(stimulus["list"])
-                    spikes = np.loadtxt(str_io)
+                    spikes = np.loadtxt(str_io, ndmin=1)
                     spikes = np.sort([t_sp for t_sp in spikes if t_sp <= sim_time])
                     spike_times[sym].extend(spikes)
                 else:
